@@ -122,6 +122,7 @@ PROPS = {
         "stages": [{"family": "containers", "flavour": "plain", "target": "C20dd", "cases": (150000, 2000000), "maxsec": (20, 200)},
                    {"family": "containers", "flavour": "plain", "target": "C16s", "cases": (300000, 4000000), "maxsec": (30, 300)},
                    {"family": "containers", "flavour": "plain", "target": "C16", "cases": (400000, 6000000), "maxsec": (40, 400)},
+                   {"family": "containers", "flavour": "plain", "target": "C16t", "cases": (150000, 2000000), "maxsec": (20, 200)},
                    {"family": "rt", "flavour": "tsan", "target": "RTdd", "cases": (6000, 150000), "maxsec": (20, 400), "stochastic": True, "min_nontrivial_frac": 0.5}],
     },
     "C17": {
@@ -298,7 +299,7 @@ _ENUM = [("C01", "locks", "C01", "enum/C01-guarded-mutex.case", (3, 4)), ("C02",
          ("C13", "rcu", "C13", "enum/C13-handles-erase.case", (2, 3)), ("C19", "tripwire", "C19", "enum/C19-move-trigger-detectors.case", (3, 4))]
 for _pid, _fam, _tgt, _file, _k in _ENUM:
     PROPS[_pid]["stages"].append({"family": _fam, "flavour": "plain", "target": _tgt, "enum": {"mode": "sched", "file": _file, "maxpre": _k}, "cases": (0, 0), "min_nontrivial_frac": 0.0})
-PROPS["C14"]["stages"].append({"family": "c14", "flavour": "plain", "target": "C14", "enum": {"mode": "cfg"}, "cases": (0, 0), "min_nontrivial_frac": 0.0})
+PROPS["C14"]["stages"].append({"family": "c14", "flavour": "plain", "target": "C14", "enum": {"mode": "cfg", "cap": (3200000, 3200000)}, "cases": (0, 0), "min_nontrivial_frac": 0.0})
 
 # libFuzzer campaigns (thorough tier only): (property, family, target)
 _FUZZ = [("C01", "locks", "C01"), ("C02", "locks", "C02"), ("C03", "lrcow", "C03"), ("C04", "lrcow", "C04"), ("C05", "rcu", "C05"), ("C06", "deferred", "C06"),
